@@ -276,6 +276,45 @@ func F[
 	_ = G[T, int]{} // inst
 }
 `,
+		"multiline-instantiation": `package p
+
+type Pair[K comparable, V any] struct {
+	Key K
+	Val V
+}
+
+func MakePair[K comparable, V any](k K, v V) Pair[K, V] { return Pair[K, V]{k, v} }
+
+var a = Pair[
+	string,
+	int,
+]{}
+
+var b = MakePair[
+	string, // key
+	int, // value
+](
+	"k",
+	1,
+)
+
+type Alias = Pair[
+	string,
+	// the value type
+	[]int,
+]
+
+func f(p Pair[
+	string,
+	int,
+]) (r Pair[string,
+	int]) {
+	return Pair[string, int]{
+		Key: "x",
+		Val: 2,
+	}
+}
+`,
 		"label-at-end": `package p
 
 func f(x int) {
